@@ -110,10 +110,82 @@ def check_case(case, counters, sets):
     return res, viols
 
 
+def gen_edit_case(rng):
+    """a combining node over 3-4 inputs whose inputs are disconnected / connected while data flows; every value is unique"""
+    k = rng.choice([3, 3, 4])
+    steps, live, nxt, v = [], list(range(k)), k, 0
+    for _ in range(rng.randrange(6, 22)):
+        r = rng.random()
+        if r < 0.12 and len(live) > 2:
+            i = rng.choice(live)
+            live.remove(i)
+            steps.append(['disconnect', i])
+        elif r < 0.18 and nxt < 7:
+            steps.append(['connect', nxt])
+            live.append(nxt)
+            nxt += 1
+        else:
+            v += 1
+            steps.append(['emit', rng.choice(live), v, rng.choice([0, 1, 1, 2])])
+    return {'edit': True, 'node': rng.choice(['combine_latest', 'combine_latest', 'zip']), 'k': k, 'steps': steps}
+
+
+def check_edit_case(case, counters, sets):
+    """Metadata travels with exactly the data it describes also across graph edits: every component of a tuple a combining
+    node delivers is a unique value, so the metadata the tuple must carry is the concatenation, in tuple order, of the
+    metadata those values were emitted with -- whatever the node decides about WHEN to emit."""
+    from streamz import Stream
+    from .. import recorder as R
+    viols = []
+    with R.recording() as log:
+        srcs = {i: Stream() for i in range(case['k'])}
+        node = getattr(srcs[0], case['node'])(*[srcs[i] for i in range(1, case['k'])])
+        log.name(node, 'cl')
+        got = []
+        sk = node.sink(got.append)
+        md_of = {}
+        try:
+            for st in case['steps']:
+                if st[0] == 'emit':
+                    md = [{'v': st[2], 'j': j} for j in range(st[3])]
+                    md_of[st[2]] = md
+                    srcs[st[1]].emit(st[2], metadata=md if md else None)
+                elif st[0] == 'disconnect':
+                    srcs[st[1]].disconnect(node)
+                else:
+                    srcs[st[1]] = Stream()
+                    srcs[st[1]].connect(node)
+        except Exception as ex:          # noqa: BLE001 -- what an edit or emit raises is C15's business; judge what was delivered
+            counters['edit_histories_cut_short_by_an_exception'] = counters.get('edit_histories_cut_short_by_an_exception', 0) + 1
+        finally:
+            sk.destroy()
+    n_edit = sum(1 for st in case['steps'] if st[0] != 'emit')
+    for e in log.ev:
+        if e[2] == 'OUT' and e[3] == 'cl':
+            x, md = e[4], e[5] or []
+            exp = [d for v in x for d in md_of.get(v, [])]
+            counters['metadata_lists_compared'] = counters.get('metadata_lists_compared', 0) + 1
+            counters['tuples_after_graph_edits_compared'] = counters.get('tuples_after_graph_edits_compared', 0) + (1 if n_edit else 0)
+            if exp:
+                counters['nonempty_metadata_compared'] = counters.get('nonempty_metadata_compared', 0) + 1
+            if [id(d) for d in md] != [id(d) for d in exp]:
+                viols.append({'key': 'C10:metadata@%s-after-connect-or-disconnect' % case['node'],
+                              'what': '%s delivered %r with the metadata of %s; its components were emitted with the metadata of %s'
+                                      % (case['node'], x, [d.get('v') for d in md], [d.get('v') for d in exp]), 'case': case})
+                break
+    sets.setdefault('modes', set()).add('graph-edits')
+    return viols
+
+
 def run_shard(seed, tier, shard, nshards):
     rng = random.Random('%s-%d-%d-%s' % (PID, seed, shard, tier))
     out = {'evaluations': 0, 'keys': [], 'violations': [], 'samples': [], 'counters': {},
            'sets': {}, 'inconclusive': []}
+    for k in range(n_cases(tier) // 4):
+        case = gen_edit_case(rng)
+        out['violations'].extend(check_edit_case(case, out['counters'], out['sets']))
+        out['evaluations'] += 1
+        out['keys'].append(progs.prog_key(case, None))
     for k in range(n_cases(tier)):
         case = one_case(rng, tier)
         res, viols = check_case(case, out['counters'], out['sets'])
@@ -137,6 +209,8 @@ def run_shard(seed, tier, shard, nshards):
 
 
 def replay(case):
+    if case.get('edit'):
+        return check_edit_case(case, {}, {})
     _, viols = check_case(case, {}, {})
     return viols
 
